@@ -244,8 +244,8 @@ def c12_wclass(ty: Ty, v, f: Failure) -> str:
         if inner.prim == 'option' and v[1][0] == 'None':
             return 'option(option):Some(None)'
     if p in ('set', 'map', 'big_map'):
-        if has_name_collision(ty.args[0]) and not (f.order_only or 'sorted' in f.info):
-            return f'names:generated-name-collision:{p}-key'
+        if has_name_collision(ty.args[0]):
+            return f'names:generated-name-collision:{p}-key' + (':order-only' if (f.order_only or 'sorted' in f.info) else '')
         w = collection_wclass(ty, v, f.info)
         if w:
             return w
